@@ -189,6 +189,8 @@ from . import initial
 
 from . import casts
 
+from . import mustcall
+
 OBLIGATIONS = [
     ('C04.O1', 'the gate', 'The new-frame step implies current - last_confirmed < max_prediction (current < max_prediction '
      'while nothing is confirmed). A stricter gate passes, a weaker one does not.', o1),
@@ -203,4 +205,5 @@ OBLIGATIONS = [
     ('C04.W', 'configuration wiring', 'at every call site that passes a field read `x.B` for a parameter `A` the callee has no same-typed parameter `B`; in every struct literal no parameter `B` is stored in field `A` while a same-typed parameter `A` / field `B` exists (builder -> constructor -> endpoint fields: timeouts, window, fps are not crossed); see rules/wiring.py', wiring.rule),
     ('C04.I', 'initial state', 'every constructor gives the fields this property\'s rules interpret (NULL_FRAME = none / nothing yet, 0 = first frame, latches open, typestate start) the value listed in tables/initial_state.json; every field compared with NULL_FRAME anywhere is listed; see rules/initial.py', initial.rule_for('C04')),
     ('C04.C', 'lossy integer casts', 'every sign-changing cast (signed -> unsigned; NULL_FRAME is -1) and every narrowing cast to < 32 bits or from 128 bits in the crate is in range by a dominating guard, by the shape of its operand, or listed with a reason in tables/casts.json; see rules/casts.py', casts.rule),
+    ('C04.M', 'must-call floor', 'the calls listed for this property in tables/must_call.json are made on every path from the entry of their function to a normal return (interprocedural must-call): a new early return, fast path or extra condition in front of one of them is reported; see rules/mustcall.py', mustcall.rule_for('C04')),
 ]
